@@ -48,8 +48,9 @@ def process_signature(app, what, name, obj, options,
                       sig, return_annotation):
     try:
         parent, obj = fetch_dotted_name(name)
-    except (AttributeError, ValueError):
-        # ValueError: a top-level module, which leaves no module to import
+    except Exception:
+        # ValueError: a top-level module, which leaves no module to import;
+        # anything: what a descriptor on the way raises when it is read
         return sig, return_annotation
     if isinstance(obj, instancemethod): # python 2 unbound methods
         obj = obj.__func__
